@@ -306,6 +306,14 @@ def check_thread_safe_vector(chk, lib):
                         changed = True
     helper_acquirers = [nm for nm in allowed_lock if nm not in ("get_free_element", "get_free_element_safe",
                                                                 "get_free_elements")]
+    # a private helper that flips no flag itself (one that only steps the probe cursor) is not an acquirer: it is read in
+    # place, inside the methods that call it
+    def _locks_something(fn_):
+        return any(C.is_call(x) and x.get("n") in ("lock", "unlock") and x.get("obj") is not None
+                   for x in C.walk_stmt(fn_["body"]))
+    plain_helpers = [nm for nm in helper_acquirers if not any(_locks_something(f_) for f_ in ms.get(nm, []) if f_.get("body"))]
+    helper_acquirers = [nm for nm in helper_acquirers if nm not in plain_helpers]
+    inline_from = [f_ for nm in plain_helpers for f_ in ms.get(nm, []) if f_.get("body")]
     sites = 0
     for name, fns in ms.items():
         for fn in fns:
@@ -329,6 +337,8 @@ def check_thread_safe_vector(chk, lib):
             if not fn.get("body"):
                 continue
             chk.analysed(function=fn["full"])
+            if inline_from:
+                fn = C.with_inlined_helpers(fn, [f_ for f_ in inline_from if f_.get("cls") == fn.get("cls")])
             g = C.CFG(fn)
             idx_vars = set()
 
@@ -429,6 +439,10 @@ def check_thread_safe_vector(chk, lib):
                     "free_element performs %d flag releases and %d decrements (conditional: %s)" %
                     (len(rel), len(dec), bool(branches)), function=fn["full"], construct="release pairing")
     chk.floor("V1/V3", n, 8)
+    # V5: every slot index the pool computes itself is inside the pool (c08_range.py)
+    from . import c08_range
+    n5 = c08_range.rule_V5(chk, [d_ for fns_ in ms.values() for d_ in fns_])
+    chk.floor("V5", n5, 4)
 
 
 # ------------------------------------------------------------------------------------------
